@@ -519,6 +519,20 @@ func c08(r *core.Run) {
 			}
 			r.Check(rec == "", "O3", fname, "apply-panic-is-not-recovered-here", p.Pos(fn.Pos()), "no recover in the event method or its helpers", "the event method (or a helper / deferred closure of it) calls recover() at "+rec+": a panicking apply handler - a failed apply - can be swallowed, after which the event is published and the listeners run")
 		}
+		// the listeners are called by the event method itself, on the calling goroutine: a listener
+		// call inside a closure of the method (handed to a queue, a go statement, a deferred function)
+		// runs at another time - after the method returned, after the callback's later messages
+		for _, f2 := range m.scope {
+			for _, a := range f2.AnonFuncs {
+				for _, f3 := range withAnon(a) {
+					for _, c := range core.Calls(f3) {
+						if core.IsDynamic(c) && isListenerCall(c) {
+							r.Bad("O2", fname, "listeners-called-synchronously", p.InstrPos(c), "the listeners are called from a closure of the event method, not by the method itself: they run when that closure is run (queued on a worker, in a goroutine), i.e. not before the method returns and not in program order with the callback's other messages - or never, when the service is stopping")
+						}
+					}
+				}
+			}
+		}
 		// ---- O4 ----
 		c08Validity(r, "O4", m)
 		// ---- O5 ----
